@@ -16,6 +16,22 @@ def stale_cache_scenarios():
     out = []
     for change in ("added", "removed", "both", "none"):
         for first in ("update_cache", "len", "find", "open-by-id"):
+            try:
+                out += _stale_one(change, first)
+            except Exception as e:
+                out.append((f"stale:{change}:{first}:raised", f"workspace {change}, first call {first}: {type(e).__name__}: {str(e)[:200]}"))
+    return out
+
+
+def _stale_one(change, first):
+    import gzip
+    import json
+    import os
+    import signac
+    from .common import dir_scratch
+    out = []
+    if True:
+        if True:
             with dir_scratch() as d:
                 pp = os.path.join(d, "p")
                 os.makedirs(pp)
